@@ -950,6 +950,9 @@ Self :: deserialize_with_seed ( bytes , DEFAULT_UPDATE_SEED ) }
 /*@C13.theta.dispatch*/ decode_spec ( bytes @ , seed_hash_of ( seed ) ) matches Some ( x ) ==> ( r matches Ok ( s ) && s . img ( ) == x ) ,
 /*@C13.theta.dispatch_sound*/ r matches Ok ( s ) ==> bytes @ . len ( ) >= 3 && ( bytes @ [ 1 ] == 4 || decode_spec ( bytes @ , seed_hash_of ( seed ) ) == Some ( s . img ( ) ) ) ,
 /*@C14.theta.total*/ r matches Ok ( s ) ==> all_valid ( s . entries @ , s . theta ) , {
+proof {
+reveal ( decode_spec ) ;
+}
 let mut cursor = SketchSlice :: new ( bytes ) ;
 let pre_longs = cursor . read_u8 ( ) . vx_io ( "preamble_longs" ) ? ;
 let ser_ver = cursor . read_u8 ( ) . vx_io ( "serial_version" ) ? ;
@@ -957,7 +960,6 @@ let family_id = cursor . read_u8 ( ) . vx_io ( "family_id" ) ? ;
 Family :: THETA . validate_id ( family_id ) ? ;
 vx_ensure_pre_longs ( Family :: THETA . min_pre_longs , Family :: THETA . max_pre_longs , pre_longs , ) ? ;
 proof {
-reveal ( decode_spec ) ;
 assert ( bytes @ . skip ( 1 ) . skip ( 1 ) . skip ( 1 ) =~= bytes @ . skip ( 3 ) ) ;
 }
 match ser_ver {
